@@ -1437,12 +1437,17 @@ def one_spelling_per_path(ctx: Ctx, rule: str) -> int:
     groups = [["/a/b", "/a//b", "/a/b/", "//a/b", pathlib.Path("/a/b")], ["/x", "//x", "/x//", pathlib.Path("/x")], ["/p/q/r", "/p//q///r/", pathlib.Path("/p/q/r")]]
     bad: List[str] = []
     und: List[str] = []
+    notes: List[str] = []
     for grp in groups:
         seen = {}
         for s in grp:
             try:
                 outs = Evaluator(prog).run(f, [Const(s)])
             except Exception as e:  # the evaluator declines
+                if isinstance(s, pathlib.PurePath):
+                    # a path object handled by something else than its lexical methods: that is the business of the rule `store_paths_lexical`, run next to this one
+                    notes.append(f"create({s!r}) not evaluated ({type(e).__name__}: {e})")
+                    continue
                 und.append(f"create({s!r}): {type(e).__name__}: {e}")
                 continue
             vals = set()
@@ -1465,6 +1470,9 @@ def one_spelling_per_path(ctx: Ctx, rule: str) -> int:
         try:
             outs0 = Evaluator(prog).run(f, [Const(s0)])
         except Exception as e:
+            if isinstance(s0, pathlib.PurePath):
+                notes.append(f"create({s0!r}) not evaluated ({type(e).__name__}: {e})")
+                continue
             und.append(f"create({s0!r}): {type(e).__name__}: {e}")
             continue
         if any(o.kind != "raise" for o in outs0):
@@ -1480,7 +1488,7 @@ def one_spelling_per_path(ctx: Ctx, rule: str) -> int:
     elif und:
         rep.unknown(rule, f.qname, desc, f.loc(), und[:3])
     else:
-        rep.ok(rule, f.qname, desc + f" ({sum(len(g) for g in groups)} sample spellings in {len(groups)} groups)", f.loc())
+        rep.ok(rule, f.qname, desc + f" ({sum(len(g) for g in groups)} sample spellings in {len(groups)} groups)" + ("; " + "; ".join(notes[:2]) if notes else ""), f.loc())
     return 1
 
 
